@@ -253,7 +253,12 @@ func (r *MDNS) removeOldestEntry() {
 		addrs := r.names[oldestName].values
 		delete(r.names, oldestName)
 		for _, addr := range addrs {
-			removeEntry(r.addrs, addr, oldestName)
+			// r.addrs keeps the names as announced: drop every spelling of the key.
+			for _, name := range append([]string(nil), r.addrs[addr].values...) {
+				if prepareHostLookup(name) == oldestName {
+					removeEntry(r.addrs, addr, name)
+				}
+			}
 		}
 	}
 }
